@@ -903,7 +903,13 @@ class Process:
             else:
                 self._raise_if_pid_reused()
                 if not cpus:
-                    if hasattr(self._proc, "_get_eligible_cpus"):
+                    if LINUX:
+                        # Name every CPU a cpu_set_t can hold: the kernel
+                        # keeps the ones this process is eligible for (its
+                        # cpuset), also after an earlier narrowing; what
+                        # /proc/pid/status shows is the current mask only.
+                        cpus = tuple(range(1024))
+                    elif hasattr(self._proc, "_get_eligible_cpus"):
                         cpus = self._proc._get_eligible_cpus()
                     else:
                         cpus = tuple(range(len(cpu_times(percpu=True))))
